@@ -442,6 +442,7 @@ pub struct GlobalState {
     pub gc_list: StdMutex<Vec<Arc<ContextProps>>>,
     pub access_log: Option<AccessLog>,
     pub default_timeout: u64,
+    pub default_udp_timeout: u64,
 }
 
 impl GlobalState {
@@ -682,6 +683,12 @@ impl Context {
 
     pub fn idle_timeout(&self) -> Duration {
         Duration::from_secs(self.props.idle_timeout)
+    }
+
+    /// Use the idle period configured for UDP associations (timeouts.udp) for this context.
+    pub fn set_udp_idle_timeout(&mut self) -> &mut Self {
+        let timeout = self.state.default_udp_timeout;
+        self.set_idle_timeout(timeout)
     }
 
     pub fn set_idle_timeout(&mut self, timeout: u64) -> &mut Self {
